@@ -617,3 +617,28 @@ def r_count_small(ctx, db, est, roles):
                 ok = stored == obs + [x]
                 ctx.ob("R-P2", "store-observation:n=%d" % n, addp, fsite, ok,
                        "observation %d is stored as given (%s)" % (n + 1, [show_val(t)[:20] for t in stored]))
+
+
+def r_middle_marker(ctx, db, est, roles):
+    """with >= 5 observations quantile() (and estimate()) is exactly the middle marker's height"""
+    for name, fp in (("quantile", est.m("quantile", None)), ("estimate", est.m("estimate", "traits::Estimate"))):
+        if fp is None:
+            ctx.floor("Quantile::%s present" % name, 0, 1)
+            continue
+
+        def setup(m, fp=fp):
+            cell = sym_state(m, est, roles, 5)
+            want = state_of(cell.v, roles)["q"][2]
+            return (lambda: (call(m, fp, [VRef(cell, (), False)]), want)), {}
+        paths, stats = explore(db, setup, Config(release=True), 100)
+        ctx.count_run(Run(fp, paths, stats, "middle"))
+        for p in paths:
+            if p.status == "return":
+                got, want = p.ret
+                ctx.ob("R-IDENT", "%s:middle-marker" % name, fp, R.fn_site(db, fp), got == want,
+                       "%s() with >= 5 observations returns %s (middle marker height: %s)" % (name, show_val(got)[:60], show_val(want)[:40]))
+            elif p.status == "panic" and is_debug_only(p.info.get("span") or {}):
+                continue
+            else:
+                ctx.ob("R-IDENT", "%s:middle-marker" % name, fp, R.fn_site(db, fp), False, "%s: %s %s" % (name, p.status, p.info.get("kind") or p.info.get("why")),
+                       inc=p.status == "inconclusive")
